@@ -335,6 +335,56 @@ func floatInputs(r *Rng, k Kind, tier string, anyValue bool) []uint64 {
 
 func isInt(k Kind) bool { return !k.IsFloat() }
 
+// emitKPos runs the kernel on short buffers of many lengths with the special values rotated through
+// every position: a conversion must be position-wise (C05), so loop restructurings (unrolling, tables,
+// frame-wise loops) that treat some positions differently show up here.
+func (g *Kern) emitKPos(sk, dk Kind, specials []uint64) {
+	if len(specials) == 0 {
+		return
+	}
+	for _, L := range []int{1, 2, 3, 4, 5, 6, 7, 8, 9, 15, 16, 17, 31, 33} {
+		for rot := 0; rot < L && rot < 5; rot++ {
+			xs := make([]uint64, L)
+			for i := range xs {
+				xs[i] = specials[(i+rot*3)%len(specials)]
+			}
+			g.emitK(sk, dk, xs)
+		}
+	}
+	// long buffers (table-driven fast paths usually have a length threshold)
+	for _, L := range []int{255, 256, 257, 1024} {
+		xs := make([]uint64, L)
+		for i := range xs {
+			xs[i] = specials[(i*7+L)%len(specials)]
+		}
+		g.emitK(sk, dk, xs)
+	}
+}
+
+func intSpecials(k Kind) []uint64 {
+	w := k.Width()
+	var lo, hi, mid uint64
+	if k.IsSigned() {
+		lo, hi, mid = uint64(int64(-1)<<(w-1)), uint64(int64(1)<<(w-1)-1), 0
+	} else {
+		lo, mid = 0, uint64(1)<<(w-1)
+		hi = mid + (mid - 1)
+	}
+	out := []uint64{}
+	for _, v := range []uint64{lo, lo + 1, mid - 1, mid, mid + 1, hi - 1, hi, mid + 5, mid - 7} {
+		out = append(out, normCell(v, k))
+	}
+	return out
+}
+
+func floatSpecials(k Kind) []uint64 {
+	out := []uint64{}
+	for _, f := range []float64{0, 1, -1, 0.5, -0.5, 2, -2, 0.999, -0.999, 1e-9, math.Inf(1), math.Inf(-1), math.Copysign(0, -1)} {
+		out = append(out, floatCell(f, k))
+	}
+	return out
+}
+
 // C06/C07: all 121 fixed→fixed pairs; C07 adds widen-then-narrow round trips.
 func genQuant(g *Kern, r *Rng, tier string, withRT bool) {
 	for sk := Kind(0); sk < NKinds; sk++ {
@@ -347,6 +397,7 @@ func genQuant(g *Kern, r *Rng, tier string, withRT bool) {
 				continue
 			}
 			g.emitK(sk, dk, xs)
+			g.emitKPos(sk, dk, intSpecials(sk))
 			if sk.Width() < dk.Width() {
 				g.st.branch("up")
 			} else if sk.Width() > dk.Width() {
@@ -369,6 +420,7 @@ func genC08(g *Kern, r *Rng, tier string) {
 				continue
 			}
 			g.emitK(sk, dk, xs)
+			g.emitKPos(sk, dk, floatSpecials(sk))
 		}
 		for _, x := range xs {
 			f := cellToFloat(x, sk)
@@ -396,6 +448,7 @@ func genC09(g *Kern, r *Rng, tier string) {
 		xs := intInputs(r, sk, tier)
 		for _, dk := range []Kind{F32, F64} {
 			g.emitK(sk, dk, xs)
+			g.emitKPos(sk, dk, intSpecials(sk))
 			g.emitRT(sk, dk, xs)
 		}
 	}
@@ -432,6 +485,7 @@ func genF2F(g *Kern, r *Rng, tier string) {
 		}
 		for _, dk := range []Kind{F32, F64} {
 			g.emitK(sk, dk, xs)
+			g.emitKPos(sk, dk, floatSpecials(sk))
 		}
 	}
 }
